@@ -773,17 +773,30 @@ where
 
 /// Iterator wrapper reporting a different (but valid) size_hint: a driver must not rely on
 /// more than the contract (lower <= remaining <= upper).
-struct Hinted<I> {
+struct Hinted<I: Iterator> {
     inner: I,
     remaining: usize,
     mode: u8,
+    /// non-fused: what to yield on every poll after the stream has ended (a pixel stream ends at
+    /// its first `None`; polling again must not paint anything)
+    after_end: Option<I::Item>,
+    ended: bool,
 }
-impl<I: Iterator> Iterator for Hinted<I> {
+impl<I: Iterator> Iterator for Hinted<I>
+where
+    I::Item: Clone,
+{
     type Item = I::Item;
     fn next(&mut self) -> Option<I::Item> {
+        if self.ended {
+            // resumes once (like `map_while` over a longer source), then stays empty
+            return self.after_end.take();
+        }
         let x = self.inner.next();
         if x.is_some() {
             self.remaining = self.remaining.saturating_sub(1);
+        } else {
+            self.ended = true;
         }
         x
     }
@@ -845,7 +858,9 @@ where
                     // the size_hint the stream reports varies with its content (deterministic)
                     let mode = pixels.first().map(|p| (p.2 % 7) as u8).unwrap_or(0);
                     let it = pixels.iter().map(|(x, y, c)| Pixel(Point::new(*x, *y), C::<M>::from_tag(*c)));
-                    d.draw_iter(Hinted { inner: it, remaining: pixels.len(), mode })
+                    // every other stream is not fused: polled after its end it yields a poison pixel
+                    let poison = if pixels.len() % 2 == 1 { Some(Pixel(Point::new(0, 0), C::<M>::from_tag(crate::ops::POISON))) } else { None };
+                    d.draw_iter(Hinted { inner: it, remaining: pixels.len(), mode, after_end: poison, ended: false })
                 }
                 Op::FillContiguous { rect, colors } => {
                     *pulled = 0;
@@ -864,6 +879,11 @@ where
                     _ => TearingEffect::HorizontalAndVertical,
                 }),
                 Op::TestImage => TestImage::<C<M>>::new().draw(d),
+                Op::DcsBorrow => {
+                    // SAFETY: nothing is sent; merely borrowing the interface must not change anything
+                    let _ = unsafe { d.dcs() };
+                    Ok(())
+                }
             }
         });
         match r {
@@ -982,6 +1002,16 @@ where
     let perm = permutation6((cfg.order >> 1) as usize % 720);
     let rst_pos = if cfg.rst { 6 - ((cfg.order >> 1) as usize / 720) % 7 } else { 6 };
     let mut b = Builder::new(M::mk(), di);
+    if cfg.order % 5 == 2 {
+        // decoys: every setter is first called with some other value; the later call must win
+        b = b
+            .color_order(if cfg.bgr { ColorOrder::Rgb } else { ColorOrder::Bgr })
+            .orientation(to_orientation(Ori((cfg.ori.0 + 3) % 8)))
+            .invert_colors(if cfg.invert { ColorInversion::Normal } else { ColorInversion::Inverted })
+            .refresh_order(to_refresh((cfg.refresh + 1) % 4))
+            .display_size(1, 1)
+            .display_offset(3, 2);
+    }
     for which in perm.iter().take(rst_pos) {
         b = apply_setter(b, *which, cfg);
     }
